@@ -10,6 +10,7 @@ from __future__ import annotations
 from copy import copy as shallow_copy
 from typing import Dict, Optional, Tuple, TypeVar, Union, overload
 
+import torch
 from torch import Tensor
 from torch.nn import Module
 
@@ -166,6 +167,12 @@ class ImageTransformer(SpatialTransformer):
         x = target.coords(align_corners=transform.align_corners(), flip=flip_coords, device=device)
         x = target.transform_points(x, axes=transform.axes(), to_grid=transform.grid())
         self.register_buffer("grid_coords", x.unsqueeze(0), persistent=False)
+        # Evaluating the transformation with grid=True resizes a displacement field to the shape of the
+        # input points, which is only valid if these are the points of a regular lattice spanning the
+        # entire domain of the transformation. Otherwise, the transformation is evaluated at the points.
+        lattice = Grid(shape=target.shape, align_corners=transform.align_corners())
+        lattice = lattice.coords(flip=flip_coords, device=device)
+        self._grid_is_lattice = bool(torch.allclose(x, lattice, atol=1e-5))
 
     @property
     def sample(self) -> SampleImage:
@@ -206,7 +213,7 @@ class ImageTransformer(SpatialTransformer):
     ) -> Union[Tensor, Tuple[Tensor, Tensor], Dict[str, Union[Tensor, Grid]]]:
         r"""Sample batch of images at spatially transformed target grid points."""
         grid: Tensor = self.grid_coords
-        grid = self._transform(grid, grid=True)
+        grid = self._transform(grid, grid=self._grid_is_lattice)
         if self._flip_coords:
             grid = grid.flip((-1,))
         return self._sample(grid, data, mask)
